@@ -4,7 +4,7 @@ PROP = dict(
     id="C22",
     corr=["Model/FsmCorr.vo", "Model/C22Corr.vo"],
     design_ref="DESIGN.md §6 C22",
-    technique="Coq: invariant (recorded opening_tx_broadcasted = NextMessage) through the engine model for any table passing a reflective check; reflective check on the state tables (an announcing state is entered only from states without a live retransmitter; every edge leaving the live states leads to a state whose action tree calls RemoveSender on every path) proved sound for ARBITRARY tables by induction over the engine model and lifted to all histories with crashes; exec-level lemmas over all action trees; vm_compute on the regenerated tables; three correspondence families on the real code: state-machine scenarios (effects), the real messages.Manager/RedundantMessenger under generated Add/Remove/Wait sequences, and end-to-end runs of the real SwapService with the real Manager and a 1 s retry interval",
+    technique="Coq: invariant (recorded opening_tx_broadcasted = NextMessage) through the engine model for any table passing a reflective check; reflective check on the state tables (an announcing state is entered only from states without a live retransmitter; every edge leaving the live states leads to a state whose action tree calls RemoveSender on every path) proved sound for ARBITRARY tables by induction over the engine model and lifted to all histories with crashes; exec-level lemmas over all action trees; vm_compute on the regenerated tables; three correspondence families on the real code: state-machine scenarios (effects), the real messages.Manager/RedundantMessenger under generated Add/Remove/Wait sequences, and end-to-end runs of the real SwapService with the real Manager and a 1 s retry interval; the Manager / RedundantMessenger family runs every operation sequence twice: peer reachable, and peer gone after the first copy (every later send fails)",
     level_text="Machine-checked for every history of every role with crashes and restarts: no retransmitter is ever started while one is live, and a retransmitter is live only while the stored swap is in the announcing state or in the wait for the taker's reaction (for the code's tables exactly SendTxBroadcastedMessage / AwaitClaim(Invoice)Payment of the two maker roles; takers never retransmit); every successor state's action tree stops the retransmitter on every execution. The message handed to a retransmitter is opening_tx_broadcasted for every maker history from the swap's creation (invariant on machines, sound for every table that passes c22_msg_table_ok). This clause was false before the repair 5728a51 (premature opening_tx_broadcasted stored although rejected, root cause D10/C09): refuted then (Findings/F_C22_1.v), reproduced on the real code by directed scenarios that now pass. On the real code: the Manager refuses a second sender per swap id and forgets removed ones (model = observed), at most one copy goes out after RemoveSender returns, and end to end (payment, cancel, coop_close, CSV, invalid message) opening_tx_broadcasted is resent while waiting and at most once afterwards.",
     level_note="Trusted: Coq kernel; hand-written model of actions.go/fsm.go tied by step-level correspondence; Go select/ticker semantics of RedundantMessenger are not modelled: 'at most one already-due copy' is observed on the real type with a 250 ms tick (Manager harness) and the 1 s fast_test interval (end to end), not proved. The production interval (10 s) differs from the tested one only by the constant selected by the fast_test build tag.",
     assumptions=[
